@@ -76,8 +76,23 @@ def scenario(exe, r):
         # no further submissions on that session after the failure
         msgs[:] = [m for m in msgs]
         sim.call_at(sim.now + ft, do_fail)
+    # an ICMP "port unreachable" reaches the client's socket at some moment (the peer's port
+    # was closed for an instant): libcoap tells the application (NACK ICMP_ISSUE) and carries
+    # on; nothing that is in flight or held may get lost over it
+    icmp = None
+    if r.random() < 0.3:
+        isid = r.randrange(nsess)
+        icmp = r.choice([1, 40, 500, 2100, 4100])
+        local = [e["local"] for e in sim.log if e["e"] == "sess" and e.get("sid") == isid][0]
+
+        def do_icmp(sm, isid=isid, local=local):
+            if isid in failed:
+                return
+            sm.log.append({"e": "icmp_injected", "t": sm.now, "sid": isid})
+            sm.cmd("deliver %s %s - icmp=1" % (PEER % (isid + 1), local))
+        sim.call_at(sim.now + icmp, do_icmp)
     sim.run(horizon=900000)
-    sig = (nstart, nsess, nmsg, mr, stagger, fail_at,
+    sig = (nstart, nsess, nmsg, mr, stagger, fail_at, icmp is not None,
            tuple(sorted(set((m["type"], m["pack"], m["rst"], m["delay"]) for m in msgs)))[:6])
     return w, sim, msgs, nstart, failed, sig
 
@@ -153,6 +168,10 @@ def judge(run, sim, msgs, nstart, failed, witness, stats):
             if tok not in by_tok:
                 continue
             sid = by_tok[tok]["sid"]
+            if ev["reason"] == 4:
+                # COAP_NACK_ICMP_ISSUE is a notice, not an outcome: the message stays in flight
+                stats["icmp_notices"] = stats.get("icmp_notices", 0) + 1
+                continue
             fl = inflight.setdefault(sid, {})
             for mid, t in list(fl.items()):
                 if t == tok:
@@ -197,7 +216,7 @@ def judge(run, sim, msgs, nstart, failed, witness, stats):
         ends = ended.get(tok, [])
         kinds = [k for k, _ in ends]
         # an ACK followed by a NACK(RST) for a later RST of the same id is the peer's doing
-        terminal = [k for k in kinds if k in ("ack", "nack0", "nack1", "nack2", "nack3", "nack4")]
+        terminal = [k for k in kinds if k in ("ack", "nack0", "nack1", "nack2", "nack3")]
         nack_calls = [k for k in kinds if k.startswith("nack")]
         if len(mid_of.get(tok, ())) > 1:
             run.violation("message-transmitted-under-two-ids", w, "token %s mids %r" %
